@@ -43,6 +43,8 @@ def rule_lines(rules, ind=0):
             s += " %logic=" + r["logic"]
         if r.get("icase"):
             s += " %ignore_case"
+        if r.get("comment"):
+            s += " %comment=" + r["comment"]
         out.append(s)
         out += rule_lines(r["children"], ind + 4)
     return out
@@ -161,7 +163,9 @@ def gen_rules(rnd, depth=0, heads=None, opts=None):
                 sub2 = [rule(["set", "*"]), rule(["match", "~"])]
                 rules.append(rule(toks + ["*"] if "*" not in toks else toks, [rule(["entry", "*"], sub2, ordered=True)]))
             else:
-                rules.append(rule(toks + ["*"] if "*" not in toks else toks, [rule(["rule", "~"], ordered=True)]))
+                # (an explicit %logic next to %ordered is overridden by the ordered patch logic: the rule still behaves as %ordered)
+                olg = "common.undo_redo" if ("common.undo_redo" in logics and rnd.random() < 0.25) else None
+                rules.append(rule(toks + ["*"] if "*" not in toks else toks, [rule(["rule", "~"], ordered=True, logic=olg)]))
         elif depth < 2 and kind < 0.58 and opts.get("rewrite", True):
             rules.append(rule(toks + ["*"] if "*" not in toks else toks, [rule(["~"], rewrite=True, glob=True)]))
         else:
@@ -180,6 +184,8 @@ def gen_rules(rnd, depth=0, heads=None, opts=None):
             if ic:
                 toks = [t for t in toks if t != "~"]
             rules.append(rule(toks, logic=lg, icase=ic))
+            if opts.get("comments") and rnd.random() < 0.4:
+                rules[-1]["comment"] = "!!note-" + h     # shown after the command when comments are requested; never part of the command
     if depth == 0 and opts.get("globals", True) and rnd.random() < 0.4:
         rules.append(rule(["gdesc", "*"], glob=True))
     if depth == 0:
@@ -187,12 +193,14 @@ def gen_rules(rnd, depth=0, heads=None, opts=None):
     return rules
 
 
-def gen_tree(rnd, ctx, unknown=0.0):
+def gen_tree(rnd, ctx, unknown=0.0, _rw=0):
     t = odict()
     seen = set()
     for r in ctx.rules():
         many = r.get("ordered") or r.get("rewrite")
         n = rnd.randint(1, 5) if many else rnd.randint(0, 2)
+        if _rw:
+            n = rnd.randint(1, 3) if r.get("rewrite") else 0
         if r.get("glob") and not r.get("rewrite"):
             n = rnd.randint(0, 1)
         for _ in range(n):
@@ -208,6 +216,9 @@ def gen_tree(rnd, ctx, unknown=0.0):
                     t[row] = to_odict(plain(rnd.choice(prev_same)))     # sibling blocks with the same content
                 else:
                     t[row] = gen_tree(rnd, ctx.child(r, row), 0.0 if r.get("ordered") else unknown)
+            elif r.get("rewrite") and r.get("glob") and _rw < 2 and rnd.random() < 0.3:
+                # nested content inside a %rewrite object ("if x then" / "set y"): every line below is governed by the same global rule
+                t[row] = gen_tree(rnd, ctx.child(r, row), 0.0, _rw + 1)
             else:
                 t[row] = odict()
     if unknown and rnd.random() < unknown:
@@ -231,6 +242,13 @@ def mutate(rnd, ctx, tree, unknown=0.0):
         r, key = c
         x = rnd.random()
         if x < 0.15:
+            continue
+        if r.get("rewrite") and ch:
+            # a line of a %rewrite object that has nested lines: keep, or change something below it only
+            if (r["id"], key) in seen:
+                continue
+            seen.add((r["id"], key))
+            out[row] = mutate(rnd, ctx.child(r, row), ch, 0.0) if x < 0.6 else to_odict(plain(ch))
             continue
         if x < 0.55 and not is_block(r):
             if fully_keyed(r):
